@@ -6,6 +6,8 @@ import (
 	"math/big"
 	"regexp"
 	"strings"
+
+	"golang.org/x/crypto/sha3"
 )
 
 // NativeObj is an engine-provided object behind an interface (logger, ...): any method not listed is a no-op.
@@ -362,7 +364,27 @@ func pbSize(it *Interp, a []Value) Value {
 // RegexpV is a natively compiled regular expression (patterns and subjects are concrete).
 type RegexpV struct{ Re *regexp.Regexp }
 
+func registerCrypto(P *Program) {
+	const gc = "github.com/ethereum/go-ethereum/crypto."
+	keccak := func(it *Interp, a []Value) []byte {
+		h := sha3.NewLegacyKeccak256()
+		s := it.asSlice(a[0])
+		if s.Len > 0 {
+			for _, e := range s.Arr.V.(*ArrayV).Elems[s.Off : s.Off+s.Len] {
+				if isBlob(e) {
+					panic(unsupported("keccak of a symbolic blob"))
+				}
+				h.Write(it.concBytes(e))
+			}
+		}
+		return h.Sum(nil)
+	}
+	P.reg(gc+"Keccak256", func(it *Interp, a []Value) Value { return it.mkBytes(keccak(it, a)) })
+	P.reg(gc+"Keccak256Hash", func(it *Interp, a []Value) Value { return it.mkByteArray(keccak(it, a)) })
+}
+
 func registerRegexp(P *Program) {
+	registerCrypto(P)
 	P.reg("regexp.MustCompile", func(it *Interp, a []Value) Value {
 		re, err := regexp.Compile(a[0].(string))
 		if err != nil {
